@@ -81,11 +81,34 @@ func (fs *FileSystem) Store(bom *sbom.Document, opts *StoreOptions) error {
 		return fmt.Errorf("there is already an entry for the specified document (and NoClobber = true)")
 	}
 
-	if err := os.WriteFile(filepath.Join(fs.Options.Path, filename), out, os.FileMode(0o644)); err != nil {
+	if err := writeFileAtomic(fs.Options.Path, filename, out); err != nil {
 		return fmt.Errorf("writing data to disk: %w", err)
 	}
 
 	return nil
+}
+
+// writeFileAtomic writes data to a temporary file in dir and renames it to
+// name, so the entry is always either its previous or its new version.
+func writeFileAtomic(dir, name string, data []byte) error {
+	tmp, err := os.CreateTemp(dir, name+".tmp-*")
+	if err != nil {
+		return err
+	}
+	defer os.Remove(tmp.Name()) //nolint:errcheck // the file is gone after a successful rename
+
+	if _, err := tmp.Write(data); err != nil {
+		tmp.Close() //nolint:errcheck,gosec // returning the write error
+		return err
+	}
+	if err := tmp.Chmod(os.FileMode(0o644)); err != nil {
+		tmp.Close() //nolint:errcheck,gosec // returning the chmod error
+		return err
+	}
+	if err := tmp.Close(); err != nil {
+		return err
+	}
+	return os.Rename(tmp.Name(), filepath.Join(dir, name))
 }
 
 // Retrieve implements the storage backend Retrieve interface. It looks for a
